@@ -7,7 +7,7 @@ head = "| seed | property | needs, in order to manifest | caught by | missed by 
 a = s.index(head) + len(head)
 b = s.index("\n\n", a)
 rows = []
-for sid in sorted(os.listdir('/verif/seeded')):
+for sid in sorted(os.listdir('/verif/seeded'), key=lambda n: int(n.split('-')[0][1:])):
     m = json.load(open(f'/verif/seeded/{sid}/meta.json'))
     rows.append("| %s | %s | %s | %s | %s |" % (sid, m['breaks_property'], m['needs_to_manifest'].replace('|', '\\|'),
                                              m['caught_by'].replace('|', '\\|'), (m.get('missed_by') or '-').replace('|', '\\|')))
